@@ -237,6 +237,19 @@ func (g *Grammar) NeedsSession() bool {
 	return len(g.Parser.Tables.Lookaheads) > 0 && (g.Options.RecursiveLookaheads || g.Options.Cancellable)
 }
 
+// FixesTrailingWS reports whether applyRule has to trim trailing whitespace for at least one rule.
+func (g *Grammar) FixesTrailingWS() bool {
+	if !g.Options.FixWhitespace || g.Options.TokenStream {
+		return false
+	}
+	for _, r := range g.Parser.Rules {
+		if g.HasTrailingNulls(*r) {
+			return true
+		}
+	}
+	return false
+}
+
 func (g *Grammar) HasTrailingNulls(r Rule) bool {
 	for i := len(r.RHS) - 1; i >= 0; i-- {
 		sym := r.RHS[i]
